@@ -12,7 +12,7 @@ pub fn def() -> PropDef {
         judge,
         run,
         shrink: Shrink::Bytes,
-        render: render_bytes,
+        render: render_seq_or_bytes,
         rule: "the union of all parser universes (v1 slot / byte / length / UTF-8, UX, U2-ctl, U2-len, U2-sig, U2-addr, U2-byte, TLV byte / structured sections raw and embedded) goes through all four parse entry points (text ones on valid UTF-8 only) plus FromStr, and on every Ok value through every accessor, formatter, owned-copy conversion and a full drain of tlvs(); every case is also iterated as a raw TLV section; under catch_unwind with a watchdog; run in two build configurations (overflow checks + debug assertions on, and off); non-trivial = some entry point returned Ok or the case is a TLV section with >= 1 item; distinct = hash of the input (first 80 bytes + length for long inputs)",
         assumptions: &[
             "hang detection is a timeout (a worker stuck on one case beyond the hang limit) plus an explicit step cap of n/3+2 next() calls on TLV iteration; it cannot distinguish very slow from infinite",
@@ -30,7 +30,13 @@ fn use_tlvs(mut it: v2::TypeLengthValues, n: usize) -> Result<usize, String> {
     let cap = n / 3 + 1;
     let mut items = 0usize;
     let mut sum = it.len() as usize + it.is_empty() as usize + it.as_bytes().len();
+    // the provided Iterator methods on copies of the cursor (it is Copy): they must not panic or run away either
+    sum += it.size_hint().0;
+    sum += it.take(cap + 2).count();
+    sum += it.take(cap + 2).collect::<Vec<_>>().len();
+    sum += it.take(cap + 2).last().map_or(0, |x| x.is_ok() as usize);
     loop {
+        sum += it.size_hint().0.min(1);
         match it.next() {
             None => break,
             Some(Ok(t)) => {
@@ -51,9 +57,13 @@ fn use_tlvs(mut it: v2::TypeLengthValues, n: usize) -> Result<usize, String> {
         }
     }
     for _ in 0..2 {
+        sum += it.size_hint().1.unwrap_or(0).min(1);
         if it.next().is_some() {
             return Err("an item after the end".into());
         }
+    }
+    if n <= 256 {
+        sum += format!("{:?}", it).len().min(1) + (it == it.clone()) as usize;
     }
     Ok(sum + items)
 }
@@ -82,7 +92,17 @@ pub fn key(input: &[u8]) -> u64 {
     }
 }
 
-pub fn judge(input: &[u8], acc: &mut Acc) {
+pub fn judge(case: &[u8], acc: &mut Acc) {
+    match decode_seq(case) {
+        Some(parts) => {
+            history_differential(&parts, acc, &parse_entries());
+            judge_history_case(&parts, acc, warm_all, judge_plain)
+        }
+        None => judge_plain(case, acc),
+    }
+}
+
+pub fn judge_plain(input: &[u8], acc: &mut Acc) {
     let mut any_ok = false;
     let mut outcome = "no entry point accepts";
     // v1 from bytes
@@ -164,5 +184,7 @@ pub fn run(run: &Run) {
     run.explore(&u2::tlv_byte_universe(run.tier.pick(8, 10)));
     run.explore(&u2::tlv_structured_universe(run.tier == Tier::Thorough));
     run.explore(&super::c11::EmbeddedTlv { n: run.tier.pick(6, 8) });
+    run.explore(&super::c11::EmbeddedText { n: run.tier.pick(6, 8) });
     run.explore(&super::c11::EmbeddedStructured::new(false));
+    explore_all(run, &seq_universes(run.tier, true, true));
 }
